@@ -197,6 +197,9 @@ def gating(prog, chk):
             "styles/defs are injected only when the document has a root <svg> and add_auto_styles is on",
             f"write_auto_styles is not guarded by both the `root <svg> found` flag and `add_auto_styles` (dominating conditions: {conds})",
         )
+        if not not_real and "real_svg" not in [f_["name"] for f_ in ((prog.adt("svgdx::context::TransformerContext").get("variants") or [{}])[0].get("fields") or [])]:
+            chk.undecided("A13.style-gating", "postprocess:not-real-svg", pp.where(bb, t.get("line")), "TransformerContext has no `real_svg` field: how style injection is kept from passed-through documents is not read here")
+            continue
         chk.ob(not_real, "A13.style-gating", "postprocess:not-real-svg", pp.where(bb, t.get("line")), "style injection is unreachable for real SVG", "style injection is reachable for real SVG documents")
     # has_svg_element is set only when the root was found
     callers = sorted(x.path for x in prog.callers_of(prog.body("svgdx::transform::Transformer::write_auto_styles")))
